@@ -84,8 +84,15 @@ pub fn generate(ctx: &mut Ctx) {
     let peer = 0usize;
     // --- messages made by the library itself
     for i in 0..(n / 18) {
-        let nb = 1_700_000_000 + rng.below(1000) as i64;
-        let na = nb + 1 + rng.below(100_000) as i64;
+        // validity windows in the 2020s and around the UTCTime / GeneralizedTime switch (2049 | 2050)
+        const Y2050: i64 = 2_524_608_000;
+        let (nb, na) = match i % 6 {
+            0 => (Y2050 - 86_400 - rng.below(1000) as i64, Y2050 + 86_400 + rng.below(1000) as i64),
+            1 => (Y2050 + rng.below(1000) as i64, Y2050 + 200_000_000),
+            2 => (1_780_000_000, Y2050 + 200_000_000),
+            3 => (Y2050 - 200_000 - rng.below(1000) as i64, Y2050 - 1),
+            _ => { let nb = 1_700_000_000 + rng.below(1000) as i64; (nb, nb + 1 + rng.below(100_000) as i64) }
+        };
         let dlen = rng.range(0, 300) as usize;
         let data = rng.bytes(dlen);
         let issuer = if i % 5 == 4 { 2 } else { peer };
@@ -140,7 +147,7 @@ pub fn generate(ctx: &mut Ctx) {
         }
         // duplicate unknown attributes are fine; dedup identical binary-signing-time entries for DER SET OF
         attrs.sort(); attrs.dedup();
-        match rng.below(30) {
+        match rng.below(34) {
             0 => when = nb - 1,
             1 => when = nb,
             2 => when = na,
@@ -170,6 +177,11 @@ pub fn generate(ctx: &mut Ctx) {
             23 => { // crl period equal to the instant
                 crl_this = when; crl_next = when; }
             24 => { ee.nb = when; ee.na = when; }
+            25 | 26 | 27 => { // a digest attribute of another length: a prefix of the digest, nothing, the digest and more
+                let i = attrs.iter().position(|a| a.windows(11).any(|w| w == [0x06, 0x09, 0x2a, 0x86, 0x48, 0x86, 0xf7, 0x0d, 0x01, 0x09, 0x04])).unwrap();
+                let d = pki::sha256(&content);
+                let v: Vec<u8> = match rng.below(4) { 0 => d[..31].to_vec(), 1 => vec![], 2 => { let mut x = d.clone(); x.push(0); x }, _ => d[..rng.below(32) as usize].to_vec() };
+                attrs[i] = pki::attr(pki::AT_MESSAGE_DIGEST, der::octets(&v)); attrs.sort(); }
             _ => {}
         }
         let set = der::set_of(&attrs);
